@@ -199,3 +199,11 @@ Theorem replay_ok_closed l q : replay_ok l q = true -> rq_closed q /\ lookups_to
 Proof.
   intro H. destruct (replay_ok_sound l q H) as [s [R F]]. eapply lowerer_emits_closed; eassumption.
 Qed.
+
+(* find_selected_all with an `except`: what it keeps are ids of `within`, and no excluded id survives *)
+Theorem retain_m_spec within except c : In c (retain_m within except) <-> In c within /\ ~ In c except.
+Proof.
+  unfold retain_m. rewrite filter_In. split; intros [H1 H2]; split; try exact H1.
+  - intro Hin. apply memN_In in Hin. rewrite Hin in H2. discriminate.
+  - destruct (memN c except) eqn:E; [|reflexivity]. apply memN_In in E. contradiction.
+Qed.
